@@ -5,7 +5,8 @@ from checks import common
 
 
 def specs():
-    out = [TaskSpec("raise_event", "contracts.events", "task_c14_dispatch", (), replay_kind="driver.events")]
+    out = [TaskSpec("raise_event", "contracts.events", "task_c14_dispatch", (), replay_kind="driver.events"),
+           TaskSpec("two instances of one driver class", "contracts.events", "task_c14_instances", (), replay_kind="driver.two_instances")]
     for k in ("text", "number", "light", "blob", "switch"):
         ops = ["assign", "set_value", "read"] + (["write"] if k in ("text", "light") else []) + (["publish"] if k != "number" else [])
         for op in ops:
